@@ -621,6 +621,8 @@ def worker(job, r):
             run_schedule(sess, rng, r, ('add',) + sched if sched[0] != 'add' else sched, cache, 'x%d' % k)
             sess.http_async.clear()
     elif mode == 'http':
+        for i in range(12):
+            two_http_services(sess, rng, r, 't%d-%d' % (seed, i))
         for i in range(arg):
             cache = rng.choice([1, 2, 3, 8, 64])
             n = rng.choice([6, 15, 40, 120])
@@ -663,7 +665,7 @@ def run(ctx):
         ctx.require(c.get('schedules', 0) >= 1000 and c.get('returned_with_response', 0) >= 500, 'schedules run and responses observed')
         ctx.require(c.get('conf_accounting_scenarios', 0) >= 30, 'configuration accounting scenarios')
         ctx.require(c.get('submissions_refused_for_their_own_reason', 0) >= 100, 'submissions refused for a reason other than a full cache')
-        ctx.require(c.get('replies_for_another_hash', 0) >= 20 and c.get('http_library_faults_fired', 0) >= 50, 'replies for another hash and failing HTTP library calls observed')
+        ctx.require(c.get('replies_for_another_hash', 0) >= 20 and c.get('http_library_faults_fired', 0) >= 50 and c.get('two_http_services_scenarios', 0) >= 50, 'replies for another hash, failing HTTP library calls and two services on one context observed')
 
 
 # ------------------------------------------------------------------ HTTP transport (request granularity)
@@ -871,6 +873,93 @@ class HttpMonitor(Monitor):
         for _ in range(3):
             s.cmd('async_run 0')
         s.cmd('async_free 0')
+
+
+def two_http_services(sess, rng, r, label):
+    """two asynchronous services with HTTP endpoints on ONE context (they share the HTTP library's multi handle; each numbers its requests from 1):
+    the aggregator answers one of them while only the other one is being run. Every request comes back once, from its own service, with the
+    signature for its own hash; a service is never given the reply that belongs to the other one."""
+    c = sess.cmd
+    key = b'anon'
+    c('clock 1700000000')
+    sess.http_async.clear()
+    for a, path in ((0, 'a'), (1, 'b')):
+        c('async_new %d 0 sign' % a)
+        c('async_endpoint %d set ksi+http://agg.example:80/%s anon anon' % (a, path))
+        c('async_opt %d cache_size 4' % a)
+        c('async_opt %d max_request_count 1000' % a)
+        c('async_opt %d rcv_timeout 1000' % a)
+        c('async_opt %d snd_timeout 1000' % a)
+    hashes = {a: [R.H(1, b'two/%d/%d/' % (a, i) + label.encode()) for i in range(2)] for a in (0, 1)}
+    nreq = rng.choice([1, 1, 2])
+    ids = {}
+    for a in (0, 1):
+        for i in range(nreq):
+            q = c('async_add %d 0 sign %s 0 s%dr%d' % (a, hashes[a][i].hex(), a, i))
+            if q.rc != 0:
+                r.viol('async-http:two-services:add-refused', 'rc=%#x' % q.rc, label)
+                c('async_free 0'); c('async_free 1')
+                return
+            ids[(a, i)] = int(q['reqid'])
+    trace = []
+    got = {}          # (service, tag) -> list of (run on service, state, sigrc, sigdoc)
+
+    def run(a, where):
+        c('clock +1')
+        q = c('async_run %d' % a)
+        if q.get('handle') == '1' and q.get('state') in ('3', '5'):
+            got.setdefault(q.get('tag'), []).append((a, int(q['state']), q.get('sigrc'), q.get('sigdoc'), where))
+            trace.append('%s: service %d returns %s state=%s sigrc=%s' % (where, a, q.get('tag'), q.get('state'), q.get('sigrc')))
+        return q
+    for a in (0, 1):
+        run(a, 'start')
+    # which transfer belongs to which service: by URL path
+    tr = {}
+    for eid, info in sess.http_async.items():
+        try:
+            req = S.parse_request(info['body'], 'aggr', 2)
+        except S.BadRequest:
+            continue
+        a = 0 if info['url'].endswith('/a') else 1
+        tr[(a, req['req_id'])] = eid
+    if len(tr) != 2 * nreq:
+        r.viol('async-http:two-services:transfers-missing', 'expected %d transfers, saw %s' % (2 * nreq, sorted(tr)), label)
+        c('async_free 0'); c('async_free 1')
+        return
+    first = rng.choice([0, 1])
+    other = 1 - first
+    answered = set()
+
+    def answer(a, i):
+        sg = gen.gen_signature(random.Random('%s/%d/%d' % (label, a, i)), first_corr=0, with_cal=False, rfc=False, doc_imprint=hashes[a][i], time=1500000000, nchains=1)
+        c('http_complete %d 200 0 %s -' % (tr[(a, ids[(a, i)])], kexec.hx(S.aggr_response(dict(req_id=ids[(a, i)]), sg, key))))
+        answered.add((a, i))
+    # the aggregator answers service `first` only; service `other` is run (it drives the shared multi handle and sees those transfers finish)
+    for i in range(nreq):
+        answer(first, i)
+    for k in range(rng.choice([1, 3, 6])):
+        run(other, 'other service run while only service %d was answered' % first)
+    for k in range(nreq + 2):
+        run(first, 'answered service run')
+    for i in range(nreq):
+        answer(other, i)
+    for k in range(nreq + 3):
+        run(other, 'second service answered and run')
+        run(first, 'first service run again')
+    r.count('two_http_services_scenarios')
+    r.observe(('two-services', nreq, first, tuple(sorted((k, tuple(x[:3] for x in v)) for k, v in got.items()))))
+    for a in (0, 1):
+        for i in range(nreq):
+            tag = 's%dr%d' % (a, i)
+            g = got.get(tag, [])
+            if len(g) != 1:
+                r.viol('async-http:two-services:returned-%d-times' % len(g), 'request %s of service %d came back %d times; trace: %s' % (tag, a, len(g), ' | '.join(trace)), label)
+            elif g[0][0] != a:
+                r.viol('async-http:two-services:returned-by-the-other-service', 'request %s was handed out by service %d; trace: %s' % (tag, g[0][0], ' | '.join(trace)), label)
+            elif g[0][1] != 3 or g[0][2] != '0' or g[0][3] != hashes[a][i].hex():
+                r.viol('async-http:two-services:completed-with-foreign-reply', 'request %s (service %d, id %d) ended in state %d, signature rc=%s for %s...; its own hash is %s... (%s); trace: %s' % (
+                    tag, a, ids[(a, i)], g[0][1], g[0][2], (g[0][3] or '-')[:16], hashes[a][i].hex()[:16], g[0][4], ' | '.join(trace)), label)
+    c('async_free 0'); c('async_free 1')
 
 
 def run_http_schedule(sess, rng, r, schedule, cache, label, snd_to=10, rcv_to=10, maxreq=1000):
